@@ -1,6 +1,6 @@
 """Core B — topic store (C06)"""
 import binascii
-from .props import Prop, Run, register, COMMON_TRUSTED, eq_lines
+from .props import Prop, Run, register, COMMON_TRUSTED, XLATE_TRUSTED, eq_lines
 
 
 def _topic_arg(op):
@@ -42,4 +42,4 @@ register(Prop(
         "subscribers are compared by pointer identity (the kinds the library uses); the reflect-based `equal` for other kinds is not modelled",
         "retained messages modelled by (topic, qos, payload); byte-level copy (Encode/Decode into the node's buffer) is C03's codec",
     ],
-    trusted=COMMON_TRUSTED))
+    trusted=COMMON_TRUSTED + [XLATE_TRUSTED]))
